@@ -1,6 +1,6 @@
 (* Correspondence cases for C09: an op history on a layered store, one observation at its end,
    what the implementation returned; compared with the mechanism model AND with the ordered-map specification. *)
-From NG Require Import Common.Tactics Common.HarnessLib Store.Bytes Store.Model Store.Model2 Store.Spec Store.Conc Store.Conc2.
+From NG Require Import Common.Tactics Common.HarnessLib Store.Bytes Store.Model Store.Model2 Store.Spec Store.Conc Store.Conc2 Store.PersistFail.
 Open Scope N_scope.
 
 (* short names for generated terms *)
@@ -21,7 +21,19 @@ Inductive sact := SW (b : lmap) | SSwap | SLw | SUn | SSnap | SRead.
 (* one action of a two-layer schedule (Store/Conc2.v) *)
 Inductive sact2 := TW1 (b : lmap) | TW2 (b : lmap) | TSwap | TLw | TUn | TSnap1 | TSnap2 | TRead.
 
+(* a flush that may fail (Store/PersistFail.v): batches into the flushed layer (FB) and into the i-th layer above it (FT),
+   the regions of its Persist, FFail = the lower PutChangeSet returns an error *)
+Definition FB (b : lmap) : fact := FW (copy_into b []).
+Definition FT (i : N) (b : lmap) : fact := FWTop (N.to_nat i) (copy_into b []).
+Definition FS : fact := FSwap.
+Definition FL : fact := FLw.
+Definition FU : fact := FUn.
+Definition FX : fact := FFail.
+
 Inductive case :=
+| CFailSeek (bk : N) (nups : N) (acts : list fact) (r : range) (impl : kvs)
+    (* Seek through the top of nups shared layers over the flushed layer over a base store, after acts *)
+| CFailGet (bk : N) (nups : N) (acts : list fact) (k : key) (impl : option val)
 | CSched2 (bk : N) (acts : list sact2) (r : range) (impl : kvs)
     (* two shared layers over a base store: writes into the top (TW1) and the middle layer (TW2), the three regions of
        the MIDDLE layer's Persist, one reader on the top layer in its three steps; any SearchDepth; impl = its answer *)
@@ -165,8 +177,33 @@ Definition check_sched2 (bk : backend) (acts : list sact2) (r : range) (impl : k
   | None => 3
   end.
 
+Definition fact_okb (a : fact) : bool :=
+  match a with FW b | FWTop _ b => forallb (fun kv => negb (isnil (fst kv)) && bytes_okb (fst kv)) b | _ => true end.
+Definition finit (bk : backend) (nups : N) : fstate :=
+  {| ups := repeat [] (N.to_nat nups);
+     fsub := {| cbk := bk; cm := []; ctemp := None; cx := []; rsnap := None; rans := None |} |}.
+
 Definition check_case (c : case) : N :=
   match c with
+  | CFailSeek bk nups acts r impl =>
+      match backend_of bk with
+      | Some b =>
+          if forallb fact_okb acts && bytes_okb (rprefix r) && bytes_okb (rstart r) && negb (isnil (rprefix r)) && (nups <? 8) then
+            let s := frun_ (finit b nups) acts in
+            let spec := rq r (if rdepth r =? 0 then f_flat s else flat_depth_layers (rdepth r) (f_layers s) (cx (fsub s))) in
+            code_of (kvs_eqb (f_seek s r) impl) (kvs_eqb spec impl)
+          else 3
+      | None => 3
+      end
+  | CFailGet bk nups acts k impl =>
+      match backend_of bk with
+      | Some b =>
+          if forallb fact_okb acts && negb (isnil k) && bytes_okb k && (nups <? 8) then
+            let s := frun_ (finit b nups) acts in
+            code_of (option_eqb keq (f_get s k) impl) (option_eqb keq (lookup k (f_flat s)) impl)
+          else 3
+      | None => 3
+      end
   | CSched2 bk acts r impl =>
       match backend_of bk with
       | Some b =>
